@@ -3,6 +3,7 @@ C04 — one-way lifecycle; redundant requests are no-ops.
 Property theorems only (helper lemmas live in `Bourse/Lemmas`).
 -/
 import Bourse.Model.Ops
+import Bourse.Lemmas.Lifecycle
 
 namespace Bourse.Props.C04
 open Bourse
@@ -37,6 +38,35 @@ theorem setTime_only_time (b : Book) (t : Nat) : b.setTime t = { b with t := t }
 /-- Hence every observable other than the time is unchanged by a clock change. -/
 theorem setTime_observe (b : Book) (t n : Nat) :
     (b.setTime t).observe n = { b.observe n with t := t } := rfl
+
+/-- **One-way lifecycle, over every history.** Take any state reachable from a new book by valid
+fault-free operations, and any valid fault-free continuation: every order that existed keeps its
+index and its id, side, trader and starting volume; its status has only advanced along
+New → Active → Filled/Cancelled (or straight from New to Filled/Cancelled/Rejected); and if it was
+already Filled, Cancelled or Rejected its whole record is unchanged. -/
+theorem lifecycle_one_way (t0 tick : Nat) (trading : Bool) (ht : 0 < tick) (ops cont : List Op)
+    (hv : ∀ op ∈ ops, ValidOp op) (hnf : NoFault (Book.new t0 tick trading) ops)
+    (hv' : ∀ op ∈ cont, ValidOp op) (hnf' : NoFault ((Book.new t0 tick trading).run ops) cont) :
+    ∀ (i : Nat) (e : Entry), ((Book.new t0 tick trading).run ops).orders[i]? = some e →
+      ∃ e', (((Book.new t0 tick trading).run ops).run cont).orders[i]? = some e' ∧
+        Adv e.order.status e'.order.status = true ∧ e'.order.id = e.order.id ∧ e'.order.side = e.order.side ∧
+        e'.order.trader = e.order.trader ∧ e'.order.svol = e.order.svol ∧
+        (isTerminal e.order.status = true → e'.order = e.order) :=
+  lifecycle_run (inv_reachable t0 tick trading ht ops hv hnf) cont hv' hnf'
+
+/-- Ids are assigned densely in creation order: in every reachable state the order at index `i`
+has id `i`. -/
+theorem ids_dense (t0 tick : Nat) (trading : Bool) (ht : 0 < tick) (ops : List Op)
+    (hv : ∀ op ∈ ops, ValidOp op) (hnf : NoFault (Book.new t0 tick trading) ops) :
+    ∀ (i : Nat) (e : Entry), ((Book.new t0 tick trading).run ops).orders[i]? = some e → e.order.id = i :=
+  (inv_reachable t0 tick trading ht ops hv hnf).ids
+
+/-- The allowed moves, spelled out: nothing ever leaves a terminal status, Active never goes back
+to New, and Rejected is reachable from New only. -/
+theorem adv_table :
+    (∀ s, Adv .filled s = true → s = .filled) ∧ (∀ s, Adv .cancelled s = true → s = .cancelled) ∧
+    (∀ s, Adv .rejected s = true → s = .rejected) ∧ Adv .active .new = false ∧ Adv .active .rejected = false := by
+  refine ⟨?_, ?_, ?_, rfl, rfl⟩ <;> intro s <;> cases s <;> simp [Adv]
 
 /-- Non-vacuity: a concrete book with a Filled, a Cancelled and an Active order on which the
 three redundant requests are exercised. -/
